@@ -357,3 +357,112 @@ def growth_oracle(case, toks, log, items):
         elif tok.startswith('E:'):
             break
     return v
+
+
+# ---------------------------------------------------------------- writers (C10, C11)
+
+def _arg(s):
+    if s == '~':
+        return None
+    return b'' if s == '-' else bytes.fromhex(s)
+
+
+def _fields_rt(rt):
+    out = []
+    if not rt:
+        return out
+    for r in rt.split('/'):
+        if r == 'E':
+            out.append('E')
+        else:
+            f = parse_fields(r)
+            out.append(tuple(bytes.fromhex(f.get(k, '')) for k in ('h', 's', 'q') if k in f))
+    return out
+
+
+def head_ok(h):
+    return b'\n' not in h and not h.endswith(b'\r')
+
+
+def seq_ok(s):
+    return b'\n' not in s and b'\r' not in s and b'>' not in s
+
+
+def writer_oracle(c, o, s):
+    """Round trip through the real reader, wrap widths, chunking independence; claims only inside
+    the property's domain (headers without LF not ending in CR, sequences without LF/CR/'>')."""
+    v = Verdict()
+    t = c.split(' ')
+    f, w, a = t[1], int(t[2]), t[3:7]
+    if o == 'PANIC':
+        if w == 0 and 'wrap' in f:
+            return v    # documented assertion
+        v.failures.append('writer panicked')
+        return v
+    if ' RT:' not in o:
+        v.failures.append('unexpected writer observation ' + o[:80])
+        return v
+    outhex, rt = o.split(' RT:', 1)
+    out = b'' if outhex == '-' else bytes.fromhex(outhex)
+    recs = _fields_rt(rt)
+    if f.startswith('fa'):
+        if f == 'fa_many':
+            want = []
+            for r in a[0].split('|'):
+                h, sq = r.split(':')
+                want.append((bytes.fromhex(h), bytes.fromhex(sq)))
+        else:
+            if f in ('fa_parts', 'fa_wrap', 'fa_wrapseq'):
+                d = _arg(a[1])
+                h = _arg(a[0]) + (b' ' + d if d is not None else b'')
+                sq = _arg(a[2])
+                segs = [sq]
+            elif f in ('fa_seqiter', 'fa_wrapiter'):
+                h = _arg(a[0])
+                segs = [] if a[1] == '~' else [bytes.fromhex(x) for x in a[1].split('|')]
+                sq = b''.join(segs)
+            else:
+                h = _arg(a[0])
+                sq = _arg(a[1])
+                segs = [sq]
+            want = [(h, sq)]
+        if not all(head_ok(h) and seq_ok(q) for h, q in want):
+            v.domain_end = 'outside the documented domain'
+            return v
+        v.nontrivial = True
+        if recs != want:
+            v.failures.append('written text parses back to %s, expected %s' % (recs[:3], want[:3]))
+            return v
+        if f in ('fa_wrap', 'fa_wrapseq', 'fa_wrapiter', 'fa_owned_wrap'):
+            h, sq = want[0]
+            lines = out.split(b'\n')
+            body = lines[1:-1]      # after the header, before the final empty piece
+            if sq:
+                if any(len(l) > w for l in body) or any(len(l) != w for l in body[:-1]) or not body or len(body[-1]) == 0:
+                    v.failures.append('wrapped lines %s do not have width %d' % ([len(l) for l in body], w))
+                    return v
+                exp = b'>' + h + b'\n' + b''.join(sq[i:i + w] + b'\n' for i in range(0, len(sq), w))
+                if out != exp:
+                    v.failures.append('wrapped output differs from wrapping the whole sequence')
+                    return v
+    else:
+        if f == 'fq_many':
+            want = []
+            for r in a[0].split('|'):
+                h, sq, q = r.split(':')
+                want.append((bytes.fromhex(h), bytes.fromhex(sq), bytes.fromhex(q)))
+        elif f == 'fq_parts':
+            d = _arg(a[1])
+            want = [(_arg(a[0]) + (b' ' + d if d is not None else b''), _arg(a[2]), _arg(a[3]))]
+        else:
+            want = [(_arg(a[0]), _arg(a[1]), _arg(a[2]))]
+        ok = all(head_ok(h) and b'\n' not in sq and b'\r' not in sq and b'\n' not in q and b'\r' not in q and len(sq) == len(q)
+                 for h, sq, q in want)
+        if not ok:
+            v.domain_end = 'outside the documented domain'
+            return v
+        v.nontrivial = True
+        if recs != want:
+            v.failures.append('written text parses back to %s, expected %s' % (recs[:3], want[:3]))
+            return v
+    return v
